@@ -235,3 +235,6 @@ func RemoveAt(v interface{}, p Path) interface{} {
 	delete(parent.(map[string]interface{}), last.key)
 	return c
 }
+
+// ValueAt returns the value at p.
+func ValueAt(v interface{}, p Path) interface{} { return getAt(v, []pstep(p)) }
